@@ -42,6 +42,16 @@ def to1x(text, version, rng, respell_math=False):
         t = t.replace('</model>', extra + '</model>', 1)
     # connections
     t = re.sub(r'<connection component_1="([^"]*)" component_2="([^"]*)"([^>]*)>', r'<connection><map_components component_1="\1" component_2="\2"\3/>', t)
+    # the map_components element may stand anywhere among the map_variables elements
+    def reorder(m):
+        kids = re.findall(r'<map_(?:components|variables)[^>]*/>', m.group(2))
+        if len(kids) < 2 or rng.random() < 0.5:
+            return m.group(0)
+        mc = kids.pop(0)
+        kids.insert(rng.randint(1, len(kids)), mc)
+        sep = re.search(r'/>(\s*)<', m.group(2))
+        return m.group(1) + (sep.group(1) if sep else '').join(kids) + m.group(3)
+    t = re.sub(r'(<connection>\s*)(.*?)(\s*</connection>)', reorder, t, flags=re.S)
     # spellings
     def spell(m):
         w = m.group(2)
